@@ -200,6 +200,12 @@ def run_protocol(t, fam, controller=None, fixed=None):
                     f"failure-changes-other-trials-bookkeeping:{fam}:{'+'.join(sorted(diff))}",
                     f"{spec.describe()}: on_trial_error({ev.trial_id}) changed {diff}",
                 )
+            # the failed trial's own pending evaluations are gone
+            st_ = getattr(getattr(getattr(getattr(sched, "scheduler", sched), "searcher", None), "state_transformer", None), "state", None)
+            if st_ is not None:
+                left = sorted((p.trial_id, str(getattr(p, "resource", None))) for p in st_.pending_evaluations if str(p.trial_id) == str(ev.trial_id))
+                if left:
+                    raise Violation(f"failed-trial-keeps-pending-evaluations:{fam}", f"{spec.describe()}: after on_trial_error({ev.trial_id}) the searcher state still holds pending {left}")
             if holder.get("before", {}).get("pending"):
                 labels.add("gp-pending-at-failure")
             if holder.get("before", {}).get("slots"):
